@@ -15,3 +15,11 @@ package internal
 //@   loop 1 decreases len(jobsPerTask) - rangeindex
 //@   loop 2 invariant n < tasks && r < tasks && r + n < tasks + 1 && 1 <= q && q <= jobs && (forall p :: off(jobsPerTask) <= p && p < off(jobsPerTask) + len(jobsPerTask) ==> raw(jobsPerTask, p) >= q && raw(jobsPerTask, p) <= q + loopentry(r) - r) && r <= loopentry(r)
 //@   loop 2 decreases r
+
+//@ -- floor(log2(x)) through the LOG2 table (table contents are not visible to the
+//@ -- verifier: trusted, the table itself is pinned by the C10 constant check)
+//@ func Log2NoCheck
+//@   mode int
+//@   trusted
+//@   ensures x >= 1 ==> result <= 31 && (x < 256 ==> result <= 7) && (x >= 256 ==> result >= 8) && (x < 65536 ==> result <= 15) && (x >= 65536 ==> result >= 16) && (x < 16777216 ==> result <= 23) && (x >= 16777216 ==> result >= 24)
+//@   modifies nothing
